@@ -82,7 +82,7 @@ class World(object):
                 msg['arg'] = {'id': i}
                 others = [s_ for s_ in self.sides if s_ != side]
                 self.rpc_server[i] = others[0]
-            elif fwd == 'rpc_req':
+            elif isinstance(fwd, str) and fwd.startswith('rpc_req'):
                 # typed messages as Component.rpc() publishes them (their
                 # class default says fwd=True)
                 from radical.pilot.messages import RPCRequestMessage
@@ -90,6 +90,12 @@ class World(object):
                                         args=[], kwargs={})
                 msg = msg.as_dict()
                 msg['arg'] = {'id': i}
+                # addressed requests (`Component.rpc(..., rpc_addr=...)`):
+                # the address names who is to act, every side still sees it
+                if fwd.endswith('@other'):
+                    msg['addr'] = [s_ for s_ in self.sides if s_ != side][0]
+                elif fwd.endswith('@comp'):
+                    msg['addr'] = 'agent_staging_input.0000'
             elif fwd == 'rpc_res':
                 from radical.pilot.messages import RPCResultMessage
                 msg = RPCResultMessage(uid='rpc.%d' % i, val=1).as_dict()
@@ -322,6 +328,8 @@ def message_alphabet(n_pilots):
     # typed RPC messages travel on the control pubsub
     for side in sides:
         out.append(('control', side, 'rpc_req', None))
+        out.append(('control', side, 'rpc_req@other', None))
+        out.append(('control', side, 'rpc_req@comp', None))
         out.append(('control', side, 'rpc_res', None))
     # a request published on one side and answered on another
     for side in sides:
